@@ -367,6 +367,7 @@ func cmdCheck(args []string) int {
 		keys = append(keys, k)
 	}
 	sort.Slice(keys, func(i, j int) bool { return keys[i].harness+keys[i].label < keys[j].harness+keys[j].label })
+	knownPrinted := map[*KnownFinding]int{}
 	for _, k := range keys {
 		cands := failJobs[k]
 		var hit *replayJob
@@ -397,7 +398,10 @@ func cmdCheck(args []string) int {
 		}
 		if isKnown {
 			knownHit = append(knownHit, k.harness+": "+k.label)
-			fmt.Printf("KNOWN-FINDING: property=%s %s [%s %s] e.g. %s\n", *prop, kf.What, k.harness, k.label, traceString(hit.Trace))
+			if knownPrinted[kf] == 0 {
+				fmt.Printf("KNOWN-FINDING: property=%s %s [first seen: %s %q inputs %s]\n", *prop, kf.What, k.harness, k.label, traceString(hit.Trace))
+			}
+			knownPrinted[kf]++
 			continue
 		}
 		name := fmt.Sprintf("%s-%s-%s.json", *prop, k.harness, sanitize(k.label))
